@@ -1507,6 +1507,8 @@ class Exec:
                 rest = list(args[1:])
                 if len(rest) == 1 and isinstance(rest[0], Agg) and rest[0].name == 'tuple' and len(body.params) == 1 + len(rest[0].f):
                     rest = list(rest[0].f)
+                elif len(rest) == 1 and rest[0] is UNIT and len(body.params) == 1:
+                    rest = []                      # `f()`: the argument tuple is the unit value
                 if target is None:
                     raise Unsupported('diverging closure call')
                 f = self.push_call(st, body, dict(fr.env), [first] + rest)
